@@ -302,7 +302,7 @@ def generate(rng, ncells=None, features=None):
 # I / ILOG / M shortcuts in generated per-cell vectors.  Off until the repair of C08-F3 lands (re-compression of a
 # list that holds a multiply or interpolate shortcut is not idempotent: a genuine defect, recorded, being repaired);
 # with it on, C19 reports that defect on the unchanged tree.
-PROGRESSION_SHORTCUTS = False
+PROGRESSION_SHORTCUTS = True
 
 
 def _compress(rng, vals, shortcuts):
